@@ -258,13 +258,11 @@ def restore (uid excl : Nat) (an : Annot) : Option PodAlloc :=
 /-- the `PreferredCPUExclusivePolicy` a handler will read back from the object after PreBind
     (plugin.go `appendResourceSpecIfMissed`, util/reservation `NewReservePod`).  `kind` 0 = pod,
     1 = Reservation whose resource-spec annotation sits on the Reservation itself, 2 = Reservation whose
-    resource-spec annotation sits on `spec.template` (where a pod template carries it).
-    For a CPU-bind allocation `appendResourceSpecIfMissed` reads the spec from `object.GetAnnotations()`
-    only; for kind 2 that is empty, so it writes `{preferredCPUBindPolicy: …}` onto the Reservation, and
-    `NewReservePod` lets the Reservation's annotation overwrite the template's: the exclusive policy
-    the allocation was made with is no longer readable (as written, not tidied). -/
-def persistedExcl (kind : Nat) (a : PodAlloc) : Nat :=
-  if kind = 2 ∧ a.cpus ≠ [] then 0 else a.excl
+    resource-spec annotation sits on `spec.template`.  `appendResourceSpecIfMissed` starts from the
+    object's own spec annotation, or (since commit 50a5eb3) from the template's when a Reservation has
+    none of its own, and only fills in bind-policy fields, so the written-back spec keeps the exclusive
+    policy for every kind. -/
+def persistedExcl (_kind : Nat) (a : PodAlloc) : Nat := a.excl
 
 /-- an object as the API server holds it. -/
 structure Obj where
